@@ -226,7 +226,11 @@ pub fn supervised<T: Send + 'static>(label: &str, watchdog: Duration, f: impl Fn
                     let spinning_only = !busy.is_empty()
                         && busy.iter().all(|tid| {
                             // busy-polling a wait group, or idling in an executor / harness loop without any cache frame
-                            blocks.iter().any(|b| b.lines().next().map_or(false, |l| l.contains(&format!("LWP {tid})"))) && (b.contains("wg::future::") || b.contains("YieldNow") || !b.contains("stretto::")))
+                            blocks.iter().any(|b| {
+                                let idle_executor = ["async_io::driver::block_on", "async_executor::", "tokio::runtime::park", "futures_executor::local_pool", "vcheck::driver::seeded::block_on", "parking::Inner::park"].iter().any(|f| b.contains(f));
+                                b.lines().next().map_or(false, |l| l.contains(&format!("LWP {tid})")))
+                                    && (b.contains("wg::future::") || b.contains("YieldNow") || (idle_executor && !b.contains("stretto::") && !b.contains("vcheck::engines::")))
+                            })
                         });
                     if spinning_only {
                         let c = counters::snapshot();
